@@ -77,12 +77,16 @@ def big_family(rep, tier, enforced):
         rng = random.Random(common.seed() * 7011 + 6)
         jobs = [(9000 + rng.randint(0, 900), 1, 2, 2, 4, rng.randrange(1 << 30)),
                 (13000 + rng.randint(0, 900), 2, 1, 2, 6, rng.randrange(1 << 30))]
+        # ... and a run with MANY clusters (labels beyond one signed byte), on a noisy ramp so that most of them stay in use
+        jobs.append((2800 + rng.randint(0, 200), 1, 3, 140, 3, rng.randrange(1 << 30)))
         if tier == "thorough":
             jobs += [(9000 + rng.randint(0, 5000), rng.choice([1, 2]), rng.choice([1, 2, 3]), rng.choice([2, 3]), 5,
                       rng.randrange(1 << 30)) for _ in range(10)]
         return common.pmap(drv_metrics.big_job, jobs)
     recs = corpus.cached(f"bigruns_{tier}_{common.seed()}", build)
     for r in recs:
+        if r.get("clustersInUse", 0) > 128:
+            rep.regime("run_with_more_than_128_clusters_in_use")
         rep.regime("long_run_largest_cluster_over_4096" if r.get("largestCluster", 0) > 4096 else "long_run_small_clusters")
         if r.get("converged") and r.get("allNonEmpty"):
             rep.regime("long_run_converged_all_non_empty")
